@@ -179,12 +179,58 @@ def checkIntervals (z : Zone) (cut : Bool) (nl out : List Interval) : Option Str
     let empty := firstSome (out.map (fun b => if b.start = b.stop then some "c02-nonempty" else none))
     firstSome [hard, backwards, firstValid, empty]
 
+/-- C02 in a zone context, on the localized stream `out` of the window `[f, t)` (absolute instants): the
+intervals are non-empty, each starts where the previous one stopped, consecutive ones differ in kind, the first
+starts at `f` and — when the window ends before 10000-01-01 local time — the last stops at `t`; and each has the
+kind the daily schedules (the model's, tied by `c01.sched`) give to its first instant, to its middle and to its last
+nanosecond, read on the zone's clock.  `cut`: `out` is a prefix of a longer stream (no clause on its end). -/
+def c02ZoneClauses (z : Zone) (ctx : Ctx) (e : Expr) (f t : Int) (cut : Bool) (out : List Interval) : Option String :=
+  -- a context with an interval-size bound yields an approximate stream (C16 judges it; C02's suite has none either)
+  if ctx.bound.isSome then none else
+  let windowEmpty := f ≥ t || naive z f ≥ instEnd
+  if windowEmpty then (if out.isEmpty then none else some "c02-nonempty-for-empty-window") else
+  match out with
+  | [] => some "c02-empty-for-nonempty-window"
+  | i0 :: _ =>
+    -- an instant whose wall-clock reading is repeated or skipped has no single place in the naive stream (the
+    -- results are mapped back to "the later one" / "the first valid one": C09's clauses): the clauses on the two
+    -- ends of the window and the pointwise clause speak about plain instants only
+    let plain (x : Int) : Bool := fromLocal z (naive z x) == [x]
+    if plain f && i0.start ≠ f then some "c02-first-start"
+    else if out.any (fun i => !(decide (i.start < i.stop))) then some "c02-nonempty"
+    else
+      let rec chk : List Interval → Option String
+        | a :: b :: rest =>
+          if a.stop ≠ b.start then some "c02-gap-or-overlap"
+          else if a.kind == b.kind then some "c02-adjacent-same-kind"
+          else chk (b :: rest)
+        | _ => none
+      match chk out with
+      | some c => some c
+      | none =>
+        if !cut && plain t && naive z t < instEnd && (out.getLast?.map (·.stop)) ≠ some t then some "c02-last-stop"
+        else
+          let kindAt (x : Int) : Option Kind :=
+            let n := naive z x
+            match daySchedule ctx e (instDay n) with
+            | .ok s => OH.Spec.kindAtInstant s n
+            | .error _ => none
+          let bad := (out.take 60).find? (fun i =>
+            [i.start, i.start + (i.stop - i.start) / 2, i.stop - 1].any (fun x =>
+              plain x && decide (naive z x < instEnd) && (match kindAt x with | some k => k != i.kind | none => false)))
+          match bad with
+          | some i => some s!"c02-pointwise interval={showInstant i.start}..{showInstant i.stop}:{kindTok i.kind}"
+          | none => none
+
 def boundsTag (z : Zone) (nl : List Interval) : String :=
   let ks := nl.flatMap (fun a => [localKind z a.start, localKind z a.stop])
   if ks.contains "multi" then "multi" else if ks.contains "gap" then "gap"
   else if ks.contains "amb" then "amb" else "plain"
 
-def handle (op : String) (args impl : List String) : Option String :=
+def handle (op0 : String) (args impl : List String) : Option String :=
+  -- `tzc02.iter`: the execution of `tz.iter`, judged by C02's clauses instead of C09's
+  let isC02 := op0 == "tzc02.iter"
+  let op := if isC02 then "tz.iter" else op0
   match impl with
   | "parse-error" :: _ => some "ok parse-error"
   | _ =>
@@ -320,7 +366,8 @@ def handle (op : String) (args impl : List String) : Option String :=
                 else
                 match pList pInterval ntoks, pList pInterval toks with
                 | some (nl, []), some (out, []) =>
-                  some (finish z ("iter-" ++ boundsTag z nl ++ (if cut then "-cut" else "")) (checkIntervals z cut nl out) m toks evOk)
+                  some (finish z ("iter-" ++ boundsTag z nl ++ (if cut then "-cut" else ""))
+                    (if isC02 then c02ZoneClauses z ctx e f t cut out else checkIntervals z cut nl out) m toks evOk)
                 | _, _ => if isPanicTok toks ∨ isPanicTok ntoks then some (finish z "iter-panic" none m toks evOk) else none
               | _ => some (finish z "iter" none m toks)
             | _, _ => none
